@@ -16,8 +16,11 @@ def stop_case(draw):
               "times": draw(st.sampled_from([0, 0, 4])),
               "deferred": draw(st.booleans()),
               "sig": draw(st.sampled_from(["VB", "VB", "VD", "VE"]))} for _ in range(n)]
+  stop_at = draw(st.integers(0, 8)) * 0.25
+  timed = {str(stop_at): [list(x) for x in draw(st.lists(st.tuples(st.integers(0, 5), st.integers(1, 40)),
+                                                         max_size=6))]}
   return {"sources": sources, "stop_from": draw(st.sampled_from(["outside", "outside", "handler"])),
-          "stop_at": draw(st.integers(0, 8)) * 0.25,
+          "stop_at": stop_at, "timed_schedule": timed,
           "posts_before": draw(st.integers(0, 3)), "posts_with_stop": draw(st.integers(0, 2)),
           "slow_step": draw(st.sampled_from([0.0, 0.0, 0.3, 1.0])),
           "schedule": [list(x) for x in draw(schedule_st)]}
